@@ -416,6 +416,27 @@ func genC16(c *Ctx) {
 			}
 		}
 	}
+	// generated subtitles in $Time$ sessions on assets whose segment boundaries are no whole seconds (the subtitle track
+	// runs at 1000 ticks per second: its addresses are the video times converted, not truncated)
+	for i := range vAssets {
+		a := &vAssets[i]
+		ref := refRepOf(a)
+		if ref == nil || ref.ContentType != "video" || a.SegmentDurMS%1000 == 0 || len(a.MPDs) == 0 {
+			continue
+		}
+		for _, cf := range []string{"segtimeline_1,timesubsstpp_en", "segtimeline_1,timesubswvtt_en", "timesubsstpp_en"} {
+			if !c.Thorough() && cf != "segtimeline_1,timesubsstpp_en" && i%2 == 0 {
+				continue
+			}
+			now := r.Pick(a.LoopDurMS+1, 3*a.LoopDurMS+17, 5*a.SegmentDurMS)
+			args := []string{a.AssetPath, cf, strconv.Itoa(now), "-", "sss"}
+			line := "sess " + strings.Join(args, " ")
+			out, res := runSess(args, nil)
+			c.EmitOut(line, out, true)
+			c16Check(c, s, a, cf, now, "-", line, out, res)
+			c.Count("session.fractional-timesubs")
+		}
+	}
 	genCsrc(c)
 	for i := 0; i < c.N(3, 12); i++ {
 		a := assets[r.Intn(len(assets))]
